@@ -124,6 +124,28 @@ func c11SetGen(r *vh.Rand, tier string, n int, emit func(any)) {
 			}
 		}
 	}
+	// exhaustive page structures for includes: four pages; a holds any subset of them, b has each page absent, present
+	// or emptied by a Delete (an all-zero page left behind): 16 x 81 histories
+	for am := 0; am < 16; am++ {
+		for bm := 0; bm < 81; bm++ {
+			var a, b [][2]int64
+			x := bm
+			for pg := 0; pg < 4; pg++ {
+				ru := int64(0x100*(pg+1) + 0x50)
+				if am>>pg&1 == 1 {
+					a = append(a, [2]int64{0, ru})
+				}
+				switch x % 3 {
+				case 1:
+					b = append(b, [2]int64{0, ru})
+				case 2:
+					b = append(b, [2]int64{0, ru + 1}, [2]int64{1, ru + 1})
+				}
+				x /= 3
+			}
+			emit(c11SetInput{Kind: "ops", OpsA: a, OpsB: b, Probes: []int64{0x150, 0x250, 0x251}})
+		}
+	}
 	for i := 0; i < n; i++ {
 		nh := r.Range(1, 4)
 		hot := make([]int64, nh)
